@@ -7,7 +7,8 @@
    digests the byte-wise order of the text is the numeric order, so cmp_dig on the one-element list is
    the comparison the code makes.  The md5 function is supplied as the table of the (parent, body)
    pairs that occur in the scenario, computed by the harness with db.CreateRevIDWithBytes. *)
-From SG Require Export Base.Prelude Base.Bytes C06.Replication.
+From SG Require Export Base.Prelude Base.Bytes C06.Replication C06.VV.
+From SG Require Import C10.HLV.
 Open Scope N_scope.
 
 Definition digtbl := list (option revid * body * N).
@@ -26,7 +27,53 @@ Definition pobs_of (p : pdoc) : pobs := PO (cur p) (cur_del p) (cur_body p).
    counts the replication reported, and what the admin side of both databases shows afterwards *)
 Inductive stepc := St (ops : list op) (counts : option (N * N)) (after : list (N * pobs * pobs)).
 
+(* ---- version-vector (v4) scenarios: the model of VV.v re-run on the steps the real replicator ran ---- *)
+(* what the admin side shows of one document: current version (source, value), tombstone flag, body *)
+Record vpobs := VO { vo_cv : option (N * N); vo_del : bool; vo_body : option N }.
+Definition vpobs_of (x : option vdoc) : vpobs :=
+  match x with
+  | Some d => VO (Some (cv (d_hlv d))) (d_del d) (Some (d_body d))
+  | None => VO None false None
+  end.
+Definition vpobs_eqb (a b : vpobs) : bool :=
+  option_eqb (fun x y => (fst x =? fst y) && (snd x =? snd y)) (vo_cv a) (vo_cv b) &&
+  Bool.eqb (vo_del a) (vo_del b) && option_eqb N.eqb (vo_body a) (vo_body b).
+
+(* one harness step: the model operations it stands for, optionally the counts of a one-shot run
+   (documents stored by the receiver, documents refused with 409), and what both databases show afterwards *)
+Inductive vstepc := VSt (ops : list vop) (counts : option (N * N)) (after : list (N * vpobs * vpobs)).
+
+Definition vstored (st : vstatus) : bool :=
+  match st with VApplied | VRemoteWins | VLocalWins => true | _ => false end.
+
+Fixpoint vrun_count (s : vsys) (ops : list vop) : vsys * N * N :=
+  match ops with
+  | [] => (s, 0, 0)
+  | o :: r =>
+      let st := vstatus_of s o in
+      let '(s', a, c) := vrun_count (vstep s o) r in
+      (s', (if vstored st then a + 1 else a), (if vstatus_eqb st VConflict then c + 1 else c))
+  end.
+
+Definition vobs_ok (s : vsys) (l : list (N * vpobs * vpobs)) : bool :=
+  forallb (fun e => let '(d, oa, op) := e in
+                    vpobs_eqb (vpobs_of (vdoc_of s VA d)) oa && vpobs_eqb (vpobs_of (vdoc_of s VB d)) op) l.
+
+Fixpoint vcheck_steps (s : vsys) (steps : list vstepc) : bool :=
+  match steps with
+  | [] => true
+  | VSt ops counts after :: r =>
+      let '(s', a, c) := vrun_count s ops in
+      let cnt_ok := match counts with Some (a', c') => (a =? a') && (c =? c') | None => true end in
+      cnt_ok && vobs_ok s' after && vcheck_steps s' r
+  end.
+
+(* db.DefaultLWWConflictResolutionType on (tombstone flag, current version value) of the local and the remote document *)
+Definition lww_doc (source value : N) (del : bool) : vdoc := mkD (mkH source value [] []) 0 del [].
+
 Inductive case :=
+| CVV (steps : list vstepc)
+| CLww (ldel : bool) (lver : N) (rdel : bool) (rver : N) (local_won : bool)
 | CScen (tbl : digtbl) (steps : list stepc) (final : list (N * tree * tree))
 | CResolver (ldel : bool) (l : revid) (rdel : bool) (r : revid) (local_won : bool)
 | CRevDiff (t : tree) (ids missing : list revid).   (* db.RevDiff on a stored tree: the ids it reports missing *)
@@ -55,6 +102,8 @@ Fixpoint check_steps (mk : option revid -> body -> list N) (s : sys) (steps : li
 
 Definition check (c : case) : bool :=
   match c with
+  | CVV steps => vcheck_steps vsys0 steps
+  | CLww ldel lver rdel rver w => Bool.eqb (negb (lww_remote_wins (lww_doc 1 lver ldel) (lww_doc 2 rver rdel))) w
   | CScen tbl steps final =>
       match check_steps (mkdig_tbl tbl) sys0 steps with
       | Some s => forallb (fun e => let '(d, ta, tp) := e in
